@@ -375,8 +375,11 @@ def main(argv=None):
     for kind, fn, msg in problems:
         print('%s property=%s function=%s %s' % ('UNDECIDED' if kind == 'undecided' else 'CHECKER-ERROR', pid, fn, msg))
     for name in unknown:
-        g = groups.get(name)
-        print('UNDECIDED property=%s obligation=%s' % (pid, name))
+        g = groups.get(name.split(' (')[0])
+        hist = ''
+        if g:
+            hist = '; '.join(' '.join('%s:%s:%ss' % t for t in r.get('tried', [])) for r in g['res'] if r['status'] != 'proved')[:400]
+        print('UNDECIDED property=%s obligation=%s stages=[%s]' % (pid, name, hist))
     for v in vac:
         if v:
             print('CHECKER-ERROR property=%s vacuity guard: %s was discharged (it must fail)' % (pid, v))
